@@ -264,9 +264,19 @@ func checkC02(c *Ctx) Meta {
 	c02Store(c)
 	// the store layer's own key construction, prefix scans and read/write sibling agreement (the C19
 	// rules) are premises of restart equivalence: run them here under C02's name
-	c.aliasFrom, c.aliasTo = "C19-", "C02-LDB-"
+	c.pushAlias("C19-", "C02-LDB-")
 	checkC19(c)
-	c.aliasFrom, c.aliasTo = "", ""
+	// likewise the transaction discipline (C12: memory is refreshed only after the commit, one
+	// transaction per operation, no swallowed error) and the lock discipline (C14: persist and publish
+	// of one operation are one critical section) — without them the running image and the reopened one
+	// diverge after a failed commit or under two concurrent operations
+	c.popAlias()
+	c.pushAlias("C12-", "C02-TX-")
+	checkC12(c)
+	c.popAlias()
+	c.pushAlias("C14-", "C02-LOCK-")
+	checkC14(c)
+	c.popAlias()
 	c.Rule("C02-PUBLIVE", "the public hierarchy stays usable for the life of the keystore object: the fields the loader fills once and nothing re-derives (cryptoKeyPub, masterKeyPub, the account and branch public keys) are never zeroed — every address persisted afterwards would be sealed under an all-zero key and the store could not be reopened", 1)
 	c02PubLive(c)
 	// the memory side gets the NEW value
